@@ -125,7 +125,10 @@ LIFE = {
     "timer": ("KeepAliveTimer", "timer_cases.ndjson", "timer_outcomes.ndjson", ("script", "hold", "late"), ("played", "ticks")),
     "restart": ("ServerRestart", "restart_cases.ndjson", "restart_outcomes.ndjson", ("proto", "script", "timing"), ("c2",)),
     "stop": ("ClientStop", "stop_cases.ndjson", "stop_outcomes.ndjson", ("client", "scenario", "ending"), ()),
+    "bulk": ("BulkSend", "bulk_cases.ndjson", "bulk_outcomes.ndjson", ("who", "reads", "close"), ()),
 }
+# BulkSend.tla's "who" -> the real endpoints that are in that situation
+BULK_TARGETS = {"msg": ("txsubmission-client", "lsq-server"), "stream": ("blockfetch-server",)}
 LOOPS = ("recv", "send", "read", "state")
 
 
@@ -172,7 +175,11 @@ def life_rows(kind, r):
         rests = [o for o in row["pred"] if o["at"] == "rest"]
         if len(ends) > 1 or len(rests) > 1:
             row["repeat"] = 3
-        rows.append(row)
+        if kind == "bulk":
+            for t in BULK_TARGETS[row["who"]]:
+                rows.append(dict(row, target=t, idx=len(rows)))
+        else:
+            rows.append(row)
     return rows
 
 
